@@ -102,6 +102,11 @@ def ev_to_step(e, rng=None):
         return {"op": "flush"}
     if e["k"] == "inject":
         return {"op": "inject", "on": bool(e["on"])}
+    if e["k"] in ("gate", "release"):
+        return {"op": e["k"]}
+    if e["k"] == "badz":
+        path = "/api/v1/write/msgpack" if e["endpoint"] == "mp" else "/api/v1/write/line-protocol?precision=us"
+        return {"op": "req", "path": path, "db": None, "ctype": "application/octet-stream", "body": b64(e["body"]), "enc": ""}
     if e["k"] == "mp":
         return {"op": "req", "path": "/api/v1/write/msgpack", "db": e["db"], "ctype": "application/msgpack",
                 "body": b64(mp.encode(e["ast"], rng)), "enc": e.get("enc", "")}
@@ -110,7 +115,8 @@ def ev_to_step(e, rng=None):
                 "ctype": "text/plain", "body": b64(e["body"]), "enc": e.get("enc", "")}
     if e["k"] == "raw":
         return {"op": "req", "method": e.get("method", "POST"), "path": e["path"], "db": e.get("db"),
-                "ctype": e.get("ctype", ""), "body": b64(e["body"]), "enc": e.get("enc", ""), "measure": bool(e.get("measure"))}
+                "ctype": e.get("ctype", ""), "body": b64(e["body"]), "enc": e.get("enc", ""), "measure": bool(e.get("measure")),
+                "async": bool(e.get("async"))}
     raise ValueError(e)
 
 
@@ -120,6 +126,8 @@ def ev_to_json(e):
         j["ast"] = mp.to_json(e["ast"])
     if "body" in j:
         j["body"] = e["body"].hex()
+    if "text" in j:
+        j["text"] = e["text"].hex()
     return j
 
 
@@ -129,6 +137,8 @@ def ev_from_json(j):
         e["ast"] = mp.from_json(j["ast"])
     if "body" in e:
         e["body"] = bytes.fromhex(j["body"])
+    if "text" in e:
+        e["text"] = bytes.fromhex(j["text"])
     return e
 
 
@@ -157,6 +167,8 @@ def ev_to_coq(e):
         return "SReq (RqMsgpack %s %s)" % (copt_bytes(e["db"]), mp.to_coq(e["ast"]))
     if e["k"] == "lp":
         return "SReq (RqLP %s %s %s)" % (copt_bytes(e["db"]), mp.cbytes(e["prec"].encode()), chx(e["body"]))
+    if e["k"] == "badz":
+        return "SReq RqUndecompressable"
     raise ValueError(e)
 
 
@@ -209,8 +221,8 @@ def case_to_coq(case, o):
 
 
 def run_impl(cases, tag, rng=None, timeout=2400):
-    hc = [{"id": i, "max_rows": c["max_rows"], "typed": c.get("typed"), "steps": [ev_to_step(e, rng) for e in c["events"]]}
-          for i, c in enumerate(cases)]
+    hc = [{"id": i, "max_rows": c["max_rows"], "typed": c.get("typed"), "fresh": bool(c.get("fresh")), "gated": bool(c.get("gated")),
+           "steps": [ev_to_step(e, rng) for e in c["events"]]} for i, c in enumerate(cases)]
     obs = vlib.run_go_harness(PID, "./internal/api/", "^TestVerifNoCrash$", HARNESS, hc, rewrites=REWRITES,
                               tags="verif duckdb_arrow", timeout=timeout, tag=tag)
     if len(obs) != len(cases):
@@ -334,6 +346,26 @@ def rand_enc(rng):
     return rng.choice(["", "", "", "gzip", "zstd"])
 
 
+def gz(data):
+    co = zlib.compressobj(6, zlib.DEFLATED, 31)
+    return co.compress(data) + co.flush()
+
+
+BAD_GZIP = [b"\x1f\x8b\x00\x00not-deflate", b"\x1f\x8b", b"\x1f\x8b\x08\x00\x00\x00\x00\x00\x00\x03\xff\xff\xff garbage",
+            gz(b"cpu v=1i 1700000000000000\n" * 20)[:-9], b"\x1f\x8b\x09\x08reserved-method"]
+BAD_ZSTD = [b"\x28\xb5\x2f\xfd", b"\x28\xb5\x2f\xfd\xff\xff\xff\xff garbage after the magic", b"\x28\xb5\x2f\xfd\x24\x05\x29"]
+
+
+def ev_badz(endpoint, body):
+    """a body that starts with the gzip / zstd magic but does not decompress (model: RqUndecompressable -> 400)"""
+    return {"k": "badz", "endpoint": endpoint, "body": body}
+
+
+def maybe_badz(rng, evs, p=0.08):
+    if rng.random() < p:
+        evs.append(ev_badz(rng.choice(["mp", "lp"]), rng.choice(BAD_GZIP + BAD_ZSTD)))
+
+
 def gen_family_schema_churn(rng, odd):
     """one measurement, several requests whose column sets / types are drawn from a small pool;
     odd = the pool contains unusual names (empty, '_'-prefixed, ',' ':' in the name, reserved)"""
@@ -357,6 +389,7 @@ def gen_family_schema_churn(rng, odd):
             cols.append((nm, col_values(rng, ty, n, nulls=rng.random() < 0.25)))
         with_time = rng.random() < 0.9
         ast = columnar(meas, cols, tvals(rng, n, base), with_time=with_time, time_first=rng.random() < 0.6)
+        maybe_badz(rng, evs)
         evs.append(ev_mp(ast, db, rand_enc(rng)))
         if rng.random() < 0.2:
             evs.append(FLUSH)
@@ -412,6 +445,7 @@ def gen_family_lp(rng, odd):
             m2 = meas if rng.random() < 0.85 else rand_meas(rng)
             lines.append(gen_lp_line(rng, m2, fields, tags, ts))
         body = "\n".join(lines) + ("\n" if rng.random() < 0.7 else "")
+        maybe_badz(rng, evs)
         evs.append(ev_lp(body, db, rng.choice(["us", "us", "us", "ns", "ms", "s"]), rand_enc(rng)))
         if rng.random() < 0.2:
             evs.append(FLUSH)
@@ -589,6 +623,22 @@ def witness_cases():
     add("epoch-hour-first-lp", [ev_lp("cpu v=1i 10\ncpu v=2i 7300\n", None, "s"), FLUSH])
     add("epoch-hour-schema-change-flush", [ev_mp(ep("cpu", [0, 7200], [1, 2])),
                                            ev_mp(M(("m", S("cpu")), ("columns", M(("time", A(I(5), I(9000))), ("w", A(I(1), I(2))))))), FLUSH])
+    # compression front: [undecompressable body, VALID compressed write] on a FRESH server process (empty reader /
+    # decoder pools, GOMAXPROCS(1)): the valid request must be answered 2xx and stored, whatever came before
+    good_mp = lambda v: cp("cpu", [tt(), (v, A(I(1), I(2)))])
+    good_lp = "cpu v=1i %d\ncpu v=2i %d\n" % (T0, T0 + 1)
+    k = 0
+    for codec, bads in (("gzip", BAD_GZIP), ("zstd", BAD_ZSTD)):
+        for bad in bads:
+            for ep_bad, ep_good in (("mp", "mp"), ("lp", "lp"), ("lp", "mp"), ("mp", "lp")):
+                if k % 3 != 0 and (ep_bad, ep_good) in (("lp", "mp"), ("mp", "lp")):
+                    k += 1
+                    continue
+                k += 1
+                valid = ev_mp(good_mp("v"), None, codec) if ep_good == "mp" else ev_lp(good_lp, None, "us", codec)
+                valid2 = ev_mp(good_mp("v"), None, codec) if ep_good == "mp" else ev_lp(good_lp, None, "us", codec)
+                W.append({"family": "witness:undecompressable-then-valid-%s-%s-%s-%d" % (codec, ep_bad, ep_good, k), "max_rows": BIG,
+                          "typed": True, "fresh": True, "events": [ev_badz(ep_bad, bad), valid, ev_badz(ep_good, bad), valid2, FLUSH]})
     # rejected request that stores rows
     add("partial-batch", [ev_mp(M(("batch", A(cp("aa", [tt(), ("v", A(I(1), I(2)))]), cp("bb", [tt(), ("v", A(I(1), S("s")))]))))), FLUSH])
     # decoder panic is recovered
@@ -725,6 +775,77 @@ def injection_cases():
     return out
 
 
+def interleaving_cases():
+    """implementation-only, gated storage: request 2 (a type change) is parked INSIDE the storage write of its
+    schema-change flush (shard lock released); request 3 opens a fresh buffer for the same measurement meanwhile;
+    request 2 resumes and must re-check the buffer's schema before it appends.  Every acknowledged row must be
+    stored: (case, statuses, rows)."""
+    mk = lambda v, t: mp.encode(M(("m", S("cpu")), ("columns", M(("time", A(I(t, "i64"), I(t + 1, "i64"))), ("x", A(*v))))))
+    ints, strs, flts = [I(1), I(2)], [S("a"), S("b")], [F64(1.5), F64(2.5)]
+    req = lambda body, **kw: dict({"k": "raw", "path": "/api/v1/write/msgpack", "db": None, "ctype": "application/msgpack", "body": body,
+                                   "enc": "", "kind": "mp"}, **kw)
+    lp = lambda text: {"k": "raw", "path": "/api/v1/write/line-protocol?precision=us", "db": None, "ctype": "text/plain",
+                       "body": text.encode(), "enc": "", "kind": "lp"}
+    out = []
+    for name, a, b, c3 in (("int-str-int", ints, strs, req(mk(ints, T0 + 20))), ("int-str-str", ints, strs, req(mk(strs, T0 + 20))),
+                           ("int-float-int", ints, flts, req(mk(ints, T0 + 20))), ("str-int-float", strs, ints, req(mk(flts, T0 + 20))),
+                           ("int-str-lpint", ints, strs, lp("cpu x=5i %d\ncpu x=6i %d\n" % (T0 + 20, T0 + 21)))):
+        evs = [req(mk(a, T0)), {"k": "gate"}, req(mk(b, T0 + 10), **{"async": True}), c3, {"k": "release"}, FLUSH]
+        out.append(({"family": "interleave:" + name, "max_rows": BIG, "typed": None, "gated": True, "events": evs},
+                    [204, 0, 0, 204, 204, 0], {"default/cpu": 6}))
+    return out
+
+
+TLE_SHORT = b"1 x\n2 y\n"
+
+
+def tle_cases():
+    """implementation-only: garbled TLE text must be refused with a 4xx, never answered 5xx (a 5xx here is a handler
+    panic recovered by the middleware); and [undecompressable gzip, valid gzip] on a fresh process."""
+    wr = lambda body, enc="": {"k": "raw", "path": "/api/v1/write/tle", "db": None, "ctype": "text/plain", "body": body, "enc": enc,
+                               "kind": "tle", "text": body}
+    def imp(body):
+        b, ct = multipart(body)
+        return {"k": "raw", "path": "/api/v1/import/tle?db=mutdb", "db": None, "ctype": ct, "body": b, "enc": "", "kind": "imptle", "text": body}
+    out = []
+    for i, bad in enumerate([TLE_SHORT, b"1 25544\n2 25544\n", b"1 \n2 \n", b"X\n1 x\n2 y\n", TLE_SEED[:40] + b"\n" + TLE_SEED[40:]]):
+        out.append({"family": "tle:garbled-%d" % i, "max_rows": BIG, "typed": None, "events": [wr(bad), imp(bad), wr(TLE_SEED), FLUSH]})
+    out.append({"family": "tle:undecompressable-then-valid", "max_rows": BIG, "typed": None, "fresh": True,
+                "events": [wr(BAD_GZIP[0]), wr(TLE_SEED, "gzip"), wr(BAD_ZSTD[1]), wr(TLE_SEED, "zstd"), FLUSH]})
+    return out
+
+
+def tle_short_line(text):
+    """signature of finding tle-short-line-handler-panic: a line starting with '1 ' shorter than 7 bytes that has a
+    successor line (ParseTLEFile slices line1[2:7])"""
+    if not text:
+        return False
+    lines = [l.strip(b" \t\r") for l in text.replace(b"\r\n", b"\n").split(b"\n")]
+    lines = [l for l in lines if l]
+    return any(l.startswith(b"1 ") and len(l) < 7 for l in lines[:-1]) or any(l == b"1" for l in lines[:-1])
+
+
+def mutate_tle(rng, text):
+    """structure-aware TLE mutations: short / garbled / missing lines"""
+    lines = text.split(b"\n")
+    k = rng.choice(["cut", "drop", "short1", "swap", "junk", "dup"])
+    i = rng.randrange(len(lines))
+    if k == "cut":
+        lines[i] = lines[i][:rng.randrange(0, max(1, len(lines[i])))]
+    elif k == "drop":
+        del lines[i]
+    elif k == "short1":
+        lines[i] = rng.choice([b"1 x", b"1 ", b"1", b"2 y", b"1 2554", b"1 25544U"])
+    elif k == "swap" and len(lines) > 1:
+        j = rng.randrange(len(lines))
+        lines[i], lines[j] = lines[j], lines[i]
+    elif k == "junk":
+        lines[i] = bytes(rng.randrange(32, 127) for _ in range(rng.randint(0, 80)))
+    else:
+        lines.insert(i, lines[i])
+    return b"\n".join(lines)
+
+
 def declares_big_bin(body):
     """signature of the allocation finding: a bin32 header (0xc6) declaring >= 32 MB somewhere in the body"""
     i = body.find(b"\xc6")
@@ -764,25 +885,38 @@ def gen_mutation_sequences(rng, n, seeds):
                         "implp": "/api/v1/import/lp?db=mutdb", "imptle": "/api/v1/import/tle?db=mutdb"}[kind]
                 ctype = None
             r = rng.random()
+            text = None
             if kind != "lpflush":
-                if r < 0.7:
+                if kind in ("tle", "imptle") and r < 0.6:
+                    body = mutate_tle(rng, body)
+                    if rng.random() < 0.4:
+                        body = mutate_tle(rng, body)
+                elif r < 0.7:
                     body = mutate_bytes(rng, body)
                     if rng.random() < 0.3:
                         body = mutate_bytes(rng, body)
+                if kind in ("tle", "imptle"):
+                    text = body
                 # compression: valid, or compressed-then-mutated, or bare magic + garbage
                 c = rng.random()
                 if c < 0.2:
                     enc = rng.choice(["gzip", "zstd"])
                 elif c < 0.3:
                     body = mutate_bytes(rng, compress_raw(rng, body))
+                    text = None
                 elif c < 0.36:
+                    text = None
                     body = rng.choice([b"\x1f\x8b", b"\x28\xb5\x2f\xfd"]) + bytes(rng.randrange(256) for _ in range(rng.randint(0, 40)))
             if ctype is None:
                 body, ctype = multipart(body)
                 if rng.random() < 0.1:
                     body = mutate_bytes(rng, body)
-            evs.append({"k": "raw", "path": path, "db": db, "ctype": ctype, "body": body, "enc": enc, "kind": kind,
-                        "measure": kind == "mp" and not enc})
+                    text = None
+            ev = {"k": "raw", "path": path, "db": db, "ctype": ctype, "body": body, "enc": enc, "kind": kind,
+                  "measure": kind == "mp" and not enc}
+            if text is not None:
+                ev["text"] = text
+            evs.append(ev)
             if rng.random() < 0.25:
                 evs.append(FLUSH)
         evs.append(FLUSH)
@@ -886,8 +1020,8 @@ def run(res, tier, seed):
     raw_corpus = [c for c in cases if c not in modelled]
     cases = modelled
     seeds = [mp.encode(e["ast"], rng) for c in cases for e in c["events"] if e["k"] == "mp"]
-    inj = injection_cases()
-    muts = [c for c, _, _ in inj] + [alloc_witness()] + raw_corpus + gen_mutation_sequences(rng, nmut, seeds)
+    inj = injection_cases() + interleaving_cases()
+    muts = [c for c, _, _ in inj] + tle_cases() + [alloc_witness()] + raw_corpus + gen_mutation_sequences(rng, nmut, seeds)
 
     box = {}
 
@@ -982,8 +1116,9 @@ def run(res, tier, seed):
         res.violation("model and implementation disagree on a request sequence (%d cases)" % len(dis),
                       {"kind": "correspondence", "correspondence": TIE_NAME, "case": case_to_json(small), "observed": so[0],
                        "model_verdict": v2[0], "disagreeing_cases": len(dis), "families": sorted({cases[i]["family"] for i in dis})[:10],
-                       "oracle_fails_on_impl": bool(o2), "how_to_replay": "python3 tools/check.py C04 --replay <this file>"},
-                      no_input=not o2, suffix="corr")
+                       "oracle_fails_on_impl": bool(o2), "valid_requests_answered_5xx": v2[0][1],
+                       "how_to_replay": "python3 tools/check.py C04 --replay <this file>"},
+                      no_input=not (o2 or v2[0][1] > 0), suffix="corr")
 
     # ---- oracle failures on the implementation's own output
     dis_set = set(dis)
@@ -1009,13 +1144,40 @@ def run(res, tier, seed):
     for (c, want_st, want_rows), o in zip(inj, xobs[:len(inj)]):
         if o["died"]:
             continue            # reported by the loop below, with the sequence
-        if o["statuses"] != want_st or o["rows"] != want_rows:
-            res.violation("fault injection (%s): a panic inside a flush is not contained as the model says: statuses %s rows %s, expected %s %s"
-                          % (c["family"], o["statuses"], o["rows"], want_st, want_rows),
+        lost = c["family"].startswith("interleave") and o.get("written") != o.get("buffered")
+        if o["statuses"] != want_st or o["rows"] != want_rows or lost:
+            res.violation("forced schedule / fault injection (%s): statuses %s rows %s buffered %s written %s, expected %s %s and every accepted row written"
+                          % (c["family"], o["statuses"], o["rows"], o.get("buffered"), o.get("written"), want_st, want_rows),
                           {"kind": "fault-injection", "case": case_to_json(c), "observed": o,
                            "how_to_replay": "python3 tools/check.py C04 --replay <this file>"}, suffix="inject")
             break
-    res.cov["histogram"]["fault_injection_cases"] = len(inj)
+    res.cov["histogram"]["fault_injection_and_forced_interleaving_cases"] = len(inj)
+
+    # ---- TLE: garbled text must be refused with a 4xx; a valid TLE write after an undecompressable body must succeed
+    tle_5xx = 0
+    for c, o in zip(muts, xobs):
+        for e, st in zip(c["events"], o["statuses"]):
+            if e["k"] != "raw" or e.get("kind") not in ("tle", "imptle"):
+                continue
+            bad = None
+            if st >= 500 or st == -1:
+                bad = "a TLE request was answered %d" % st
+            elif e.get("text") == TLE_SEED and st >= 300:
+                bad = "the valid TLE body was refused (%d)" % st
+            if not bad:
+                continue
+            sig = "tle-short-line-handler-panic" if (st == 500 and tle_short_line(e.get("text"))) else None
+            if sig and sig in known:
+                tle_5xx += 1
+                if sig not in reported:
+                    reported.add(sig)
+                    res.known_finding("%s: %s" % (sig, known[sig]["what"]))
+                continue
+            if not any(v[2].startswith("TLE:") for v in res.violations):
+                res.violation("TLE: " + bad + " (malformed input must be a 4xx, a handler panic recovered as 500 is not)",
+                              {"kind": "tle-5xx", "case": case_to_json(c), "observed": o,
+                               "how_to_replay": "python3 tools/check.py C04 --replay <this file>"}, suffix="tle")
+    res.cov["histogram"]["tle_requests_answered_500_matching_listed_finding"] = tle_5xx
 
     # ---- implementation-only mutation stream: any death
     for c, o in zip(muts, xobs):
@@ -1068,7 +1230,10 @@ def replay(res, path):
     if any(e["k"] == "raw" for e in c["events"]):
         big = [mb for e, mb in zip(c["events"], o[0].get("alloc_mb") or []) if e["k"] == "raw" and e.get("measure") and mb >= ALLOC_LIMIT_MB]
         print("implementation-only sequence; died:", o[0]["died"], "| requests allocating >= %d MB:" % ALLOC_LIMIT_MB, big)
-        return 1 if (o[0]["died"] or big) else 0
+        tle5 = [st for e, st in zip(c["events"], o[0]["statuses"]) if e["k"] == "raw" and e.get("kind") in ("tle", "imptle") and st >= 500]
+        lost = o[0].get("written") != o[0].get("buffered")
+        print("TLE requests answered 5xx:", tle5, "| accepted rows never written:", lost)
+        return 1 if (o[0]["died"] or big or tle5 or lost) else 0
     d, orc, v = eval_in_coq([c], o, "Replay")
     print("model verdict (ending, reason, guard class):", v[0], "| model disagrees:", bool(d), "| oracle fails:", bool(orc))
     return 1 if (d or orc) else 0
